@@ -17,7 +17,7 @@ THEOREMS = [
     "c14_translated", "c14_poll_interval_documented", "c14_deadline", "c14_timeout_at_deadline", "c14_cancel_latency", "c14_cancelled_only_if_fired",
     "c14_one_cancel_notification", "c14_cancel_before_send_writes_no_request", "c14_progress_exact",
     "c14_consumed_is_before_completion", "c14_progress_token_filter", "c14_callback_failure_irrelevant",
-    "c14_shared_token", "c14_shared_token_starts", "c14_blocked_writer", "c14_stalled_writer", "c14_token_flag", "c14_token_callbacks",
+    "c14_shared_token", "c14_shared_token_starts", "c14_blocked_writer", "c14_stalled_writer", "c14_token_flag", "c14_token_callbacks", "c14_client_call_bounded",
 ]
 RULE = (
     "schedules: placements of {cancel, matching response, deadline} on the tick grid (1/1024 s) at poll boundaries +-1 tick, "
@@ -25,7 +25,8 @@ RULE = (
     "callback raising at positions 0..4} x both tie orders; real send_message under the virtual-time loop vs Await.run; "
     "non-trivial = distinct case with a cancellation, a progress event or traffic; shared-token: 2-3 requests given ONE "
     "CancellationToken, sequentially (idle gaps 0..P) or concurrently on separate stream pairs, token firing never / before / "
-    "at poll boundaries +-1 / mid-wait, vs Await.runSeq"
+    "at poll boundaries +-1 / mid-wait, vs Await.runSeq; client-deadlines: calls of the real MCPClient (lazy initialize) with servers that "
+    "never answer and floods of unrelated traffic every 100..512 ticks through the whole 60 s window, vs ClientApi.clientSeq; bound = initialize timeout + request timeout"
 )
 TRUSTED = ["anyio fail_after / cancel scopes / memory streams and asyncio scheduling (sampled under the virtual-time loop)"]
 ASSUMPTIONS = ["one polling interval = the default sub_timeout (0.5 s = 512 ticks), regenerated into Gen/Timing.lean"]
@@ -467,5 +468,30 @@ class TokenOps(Suite):
 G_ALL = ["R", "R0", "Rx", "E", "E0", "Q", "O", "T", "N", "G", "Gp", "F", "B", "Oe", "Ez", "X", "X"]
 
 
+def _client_deadlines():
+    """the C01 client-calls runs under floods of unrelated traffic and with servers that never answer:
+    a call of MCPClient ends within the timeouts it runs under"""
+    from .c01 import ClientCalls
+
+    class ClientDeadlines(ClientCalls):
+        name = "client-deadlines"
+        RKINDS = ["silence", "silence", "ok", "error"]
+        N = (160, 6000)
+        FLOOD = 0.6
+
+        def oracle(self, case, o):
+            v = super().oracle(case, o)
+            if v is not None or o.get("harness_errors"):
+                return v
+            d = self.dflt()
+            for i, (spec, r) in enumerate(zip(case["calls"], o["calls"])):
+                bound = d[spec["op"]] + (d["initialize"] if any(w["method"] == "initialize" for w in r["writes"]) else 0)
+                if r["end"] - r["start"] > bound:
+                    return ("client/deadline-exceeded", f"call {i} ({spec['op']}) took {r['end'] - r['start']} ticks; the timeouts it runs under add up to {bound}", {"max": bound})
+            return None
+
+    return ClientDeadlines()
+
+
 def suites():
-    return [Schedules(), SharedToken(), TokenOps()]
+    return [Schedules(), SharedToken(), TokenOps(), _client_deadlines()]
